@@ -111,6 +111,7 @@ func (c *c16) initRaceLog() {
 type raceReport struct {
 	owners [2]string // library | simrt | worker | other, per access
 	funcs  [2]string // first non-std frame of each access
+	via    [2]string // innermost library frame of each access ("" if the access is not inside a library call)
 	text   string
 }
 
@@ -155,10 +156,14 @@ func (c *c16) newRaceReports() []raceReport {
 				sec++
 			case strings.HasPrefix(t, "Goroutine ") && strings.Contains(t, "created at"):
 				sec = 99
-			case sec >= 0 && sec < 2 && t != "" && !strings.HasPrefix(t, "/") && strings.Contains(t, "(") && rr.funcs[sec] == "":
+			case sec >= 0 && sec < 2 && t != "" && !strings.HasPrefix(t, "/") && strings.Contains(t, "("):
 				fn := t[:strings.LastIndex(t, "(")]
-				if o := frameOwner(fn); o != "std" {
+				o := frameOwner(fn)
+				if o != "std" && rr.funcs[sec] == "" {
 					rr.owners[sec], rr.funcs[sec] = o, strings.TrimPrefix(fn, "github.com/jsightapi/")
+				}
+				if o == "library" && rr.via[sec] == "" {
+					rr.via[sec] = strings.TrimPrefix(fn, "github.com/jsightapi/")
 				}
 			}
 		}
@@ -175,6 +180,14 @@ func (c *c16) raceViolation(cs *Case) *Case {
 		if rr.owners[0] == "library" || rr.owners[1] == "library" {
 			c.st.RaceReportsLibrary++
 			fs := []string{rr.funcs[0], rr.funcs[1]}
+			sort.Strings(fs)
+			return violation(cs, "race", strings.Join(fs, " | "), trunc(rr.text, 2500))
+		}
+		if rr.via[0] != "" && rr.via[1] != "" && rr.owners[0] == "worker" && rr.owners[1] == "worker" {
+			// both accesses are made by callbacks that the library runs while it holds (or should
+			// hold) its lock: the library's locking is what fails to order them
+			c.st.RaceReportsLibrary++
+			fs := []string{"callback-in:" + rr.via[0], "callback-in:" + rr.via[1]}
 			sort.Strings(fs)
 			return violation(cs, "race", strings.Join(fs, " | "), trunc(rr.text, 2500))
 		}
@@ -366,6 +379,7 @@ func (c *c16) startSim(cs *Case, ex *c16extra, seed uint64) {
 	simrt.SetMapPolicy(simrt.MapAsc)
 	simrt.SetPoolPolicy(ex.PoolPolicy, ex.PoolDrop)
 	simrt.SetClock(1_700_000_000, 1)
+	curReadOrder = 0
 	simrt.SetSchedPolicy(ex.StayPm, ex.Stall, ex.StallFrom, ex.StallTo)
 	setYieldSites(&c.sites, ex.YieldSeed, ex.ColdPm)
 	simrt.FS = nil
@@ -801,7 +815,7 @@ func doOp(m omap, o w3op) (out w3out) {
 			if err := faulty(); err != nil {
 				return old // an Update callback cannot fail; it keeps the value
 			}
-			return o.V
+			return old + 1000000*o.V // a real read-modify-write: an overwritten Update shows as a missing addend
 		})
 	case "Get":
 		out.V, out.OK = m.Get(o.K)
@@ -937,7 +951,7 @@ func stepModel(state string, o w3op, out w3out) (bool, string) {
 				}
 			case o.FaultAt == 1:
 			default:
-				st.data[o.K] = o.V
+				st.data[o.K] += 1000000 * o.V
 			}
 		}
 		if (o.FaultAt == 1 && o.Panic && has) != out.Pan {
@@ -1069,6 +1083,21 @@ func (c *c16) checkW3(cs *Case, ex *c16extra, record bool) *Case {
 	}
 	if n := simrt.HeldLocks(); n != 0 {
 		return fail("lock-leaked", ex.Collection, fmt.Sprintf("%d lock acquisition(s) of %s were never released although every client has returned (a failing callback?)", n, ex.Collection))
+	}
+	// a last observer after every client has returned: the final state itself must be explained by
+	// the linearization (an overwritten read-modify-write that nobody read during the run shows here)
+	{
+		var last int64
+		for ci := range recs {
+			for _, r := range recs[ci] {
+				if r.ret > last {
+					last = r.ret
+				}
+			}
+		}
+		fin := w3rec{client: len(recs), in: w3op{Op: "EachSafe"}, call: last + 1, ret: last + 2}
+		fin.out = doOp(m, fin.in)
+		recs = append(recs, []w3rec{fin})
 	}
 	var hist []porcupine.Operation
 	nops, overlap := 0, false
